@@ -257,6 +257,15 @@ func (t *SessionTeardown) cleanup(session *Session, cause TerminateCause) error 
 	t.mu.Lock()
 	defer t.mu.Unlock()
 
+	// A session is cleaned up once, however many termination paths reach this point
+	session.mu.Lock()
+	if session.cleanedUp {
+		session.mu.Unlock()
+		return nil
+	}
+	session.cleanedUp = true
+	session.mu.Unlock()
+
 	ctx, cancel := context.WithTimeout(context.Background(), t.config.CleanupTimeout)
 	defer cancel()
 
